@@ -337,31 +337,139 @@ def rule_who_may_enter_kernel(ctx, ix):
             ctx.fail("C10.kernel-entry", key, "kernel entered (or its address taken) outside TensorMethod.__call__: argument validation is bypassed")
     if len(good) != 1:
         ctx.fail("C10.kernel-entry", "compile/_tensor_method.py:TensorMethod.__call__", f"{len(good)} kernel call sites in __call__ (expected exactly one)")
-    # porcelain reaches kernels only through cachable_tensor_method(...)(**inputs)
-    ctx.rule("C10.porcelain", "evaluate*/tensor_method/operators reach kernels only through TensorMethod", min_instances=3)
-    for name in ("evaluate_tensora", "evaluate_cffi"):
-        fn = ix.func(f"tensora.compile._porcelain.{name}").node
+    rule_porcelain(ctx, ix)
+
+
+def rule_porcelain(ctx, ix):
+    """evaluate / evaluate_tensora / evaluate_cffi / tensor_method are evaluated abstractly (symeval):
+    the problem is built from the parsed assignment, the parsed output format and every argument's OWN
+    format; parse / problem failures are raised before any TensorMethod is obtained; the cached
+    TensorMethod for (problem, backend) is called with exactly the given inputs."""
+    from . import symeval as S
+
+    ctx.rule("C10.porcelain", "evaluate*/tensor_method reach kernels only through the cached TensorMethod of the problem built from the arguments' own formats", min_instances=8)
+    mod = "tensora.compile._porcelain"
+    fns = {n: ix.func(f"{mod}.{n}").node for n in ("evaluate", "evaluate_tensora", "evaluate_cffi", "tensor_method", "cachable_tensor_method")}
+
+    def result(value=None, error=None):
+        r = S.Obj("Result")
+
+        def unwrap():
+            if error is not None:
+                raise S.Raised(error)
+            return value
+
+        r.attrs["alt"] = lambda f: r
+        r.attrs["unwrap"] = unwrap
+        return r
+
+    LLVM, CFFI = S.Obj("Backend", name="llvm"), S.Obj("Backend", name="cffi")
+
+    def scenario(fail=None):
+        parsed = S.Obj("ParsedAssignment", target=S.Obj("Target", name="y"), text="y(i) = A(i,j) * x(j)")
+        calls = []
+
+        def parse_assignment(text):
+            return result(error="ParseError") if fail == "assignment" else result(parsed if text == "ASSIGNMENT" else S.Obj("OtherAssignment"))
+
+        def parse_format(text):
+            return result(error="ParseError") if fail == "format" else result(S.Obj("ParsedFormat", text=text))
+
+        def make_problem(a, formats):
+            if fail == "problem":
+                return result(error="UndefinedReferenceError")
+            return result(S.Obj("Problem", assignment=a, formats=dict(formats)))
+
+        def cachable(problem, backend):
+            def function(*args, **kwargs):
+                calls.append((problem, backend, args, kwargs))
+                return S.Obj("Output", problem=problem, backend=backend, args=args, kwargs=kwargs)
+
+            return function
+
+        G = {
+            "parse_assignment": parse_assignment,
+            "parse_format": parse_format,
+            "make_problem": make_problem,
+            "raise_exception": S.Obj("raise_exception"),
+            "cachable_tensor_method": cachable,
+            "BackendCompiler": S.Obj("BackendCompiler", llvm=LLVM, cffi=CFFI),
+            "TensorMethod": lambda problem, backend=LLVM: S.Obj("TensorMethod", problem=problem, backend=backend),
+            "evaluate_tensora": fns["evaluate_tensora"],
+            "evaluate_cffi": fns["evaluate_cffi"],
+        }
+        return parsed, G, calls
+
+    A = S.make_tensor("A", (S.DENSE, S.COMPRESSED), (1, 0))
+    x = S.make_tensor("x", (S.COMPRESSED,), (0,))
+    for name, backend in (("evaluate", LLVM), ("evaluate_tensora", LLVM), ("evaluate_cffi", CFFI)):
+        parsed, G, calls = scenario()
+        problems = []
+        outs = list(S.explore(fns[name], ["ASSIGNMENT", "OUTFMT"], {"A": A, "x": x}, globals_=G))
+        for _a, (kind, val) in outs:
+            if kind != "return" or not (isinstance(val, S.Obj) and val.tag == "Output"):
+                problems.append(f"outcome {kind} {val!r}")
+                continue
+            pr = val.attrs["problem"]
+            if pr.attrs["assignment"] is not parsed:
+                problems.append("problem is not built from the parsed assignment")
+            fm = pr.attrs["formats"]
+            if list(fm) != ["y", "A", "x"]:
+                problems.append(f"format table is {list(fm)}, expected target then the inputs")
+            else:
+                if not (isinstance(fm["y"], S.Obj) and fm["y"].tag == "ParsedFormat" and fm["y"].attrs["text"] == "OUTFMT"):
+                    problems.append("output format is not the parsed output_format argument")
+                if fm["A"] is not A.attrs["format"] or fm["x"] is not x.attrs["format"]:
+                    problems.append("an input's format in the problem is not that argument's own format")
+            if val.attrs["backend"] is not backend:
+                problems.append(f"backend {val.attrs['backend'].attrs.get('name')} instead of {backend.attrs['name']}")
+            if val.attrs["args"] or list(val.attrs["kwargs"]) != ["A", "x"] or val.attrs["kwargs"]["A"] is not A or val.attrs["kwargs"]["x"] is not x:
+                problems.append("the TensorMethod is not called with exactly the given inputs")
         ctx.instance("C10.porcelain")
-        s = u(fn)
-        ok = "function = cachable_tensor_method(problem," in s and "return function(**inputs)" in s and "make_problem(parsed_assignment, formats).alt(raise_exception).unwrap()" in s
-        ok = ok and "input_formats = {name: tensor.format for name, tensor in inputs.items()}" in s
-        ok = ok and "formats = {parsed_assignment.target.name: parsed_output_format} | input_formats" in s
-        if ok:
-            ctx.ok("C10.porcelain", f"compile/_porcelain.py:{name}")
+        if problems:
+            ctx.fail("C10.porcelain", f"compile/_porcelain.py:{name}", "; ".join(sorted(set(problems))))
         else:
-            ctx.fail("C10.porcelain", f"compile/_porcelain.py:{name}", "does not build the problem from the arguments' own formats and call the cached TensorMethod with the inputs")
-    fn = ix.func("tensora.compile._porcelain.evaluate").node
+            ctx.ok("C10.porcelain", f"compile/_porcelain.py:{name}")
+        for fail, exc_ in (("assignment", "ParseError"), ("format", "ParseError"), ("problem", "UndefinedReferenceError")):
+            parsed, G, calls = scenario(fail)
+            outs = list(S.explore(fns[name], ["ASSIGNMENT", "OUTFMT"], {"A": A, "x": x}, globals_=G))
+            bad = [f"{k} {v!r}" for _a, (k, v) in outs if not (k == "raise" and v == exc_)]
+            ctx.instance("C10.porcelain")
+            key = f"compile/_porcelain.py:{name}:{fail} failure is raised"
+            if bad or calls:
+                ctx.fail("C10.porcelain", key, f"outcomes {bad}; TensorMethod calls {len(calls)}")
+            else:
+                ctx.ok("C10.porcelain", key)
+    # tensor_method
+    parsed, G, calls = scenario()
+    outs = list(S.explore(fns["tensor_method"], ["ASSIGNMENT", {"y": "F1", "A": "F2"}], {}, globals_=G))
+    problems = []
+    for _a, (kind, val) in outs:
+        if kind != "return" or not callable(val):
+            problems.append(f"outcome {kind} {val!r}")
+            continue
+        o = val()
+        pr = o.attrs["problem"]
+        fm = pr.attrs["formats"]
+        if pr.attrs["assignment"] is not parsed or list(fm) != ["y", "A"] or fm["y"].attrs.get("text") != "F1" or fm["A"].attrs.get("text") != "F2":
+            problems.append("problem is not built from the parsed assignment and the parsed formats, name by name")
+        if o.attrs["backend"] is not LLVM:
+            problems.append("default backend is not llvm")
     ctx.instance("C10.porcelain")
-    if "return evaluate_tensora(assignment, output_format, **inputs)" in u(fn):
-        ctx.ok("C10.porcelain", "compile/_porcelain.py:evaluate")
+    if problems:
+        ctx.fail("C10.porcelain", "compile/_porcelain.py:tensor_method", "; ".join(sorted(set(problems))))
     else:
-        ctx.fail("C10.porcelain", "compile/_porcelain.py:evaluate", "evaluate does not forward to evaluate_tensora")
-    fn = ix.func("tensora.compile._porcelain.cachable_tensor_method").node
+        ctx.ok("C10.porcelain", "compile/_porcelain.py:tensor_method")
+    # cachable_tensor_method builds TensorMethod(problem, backend=backend)
+    parsed, G, calls = scenario()
+    P_ = S.Obj("Problem")
+    outs = list(S.explore(fns["cachable_tensor_method"], [P_, CFFI], {}, globals_=G))
+    ok = all(k == "return" and isinstance(v, S.Obj) and v.tag == "TensorMethod" and v.attrs["problem"] is P_ and v.attrs["backend"] is CFFI for _a, (k, v) in outs)
     ctx.instance("C10.porcelain")
-    if "return TensorMethod(problem, backend=backend)" in u(fn):
+    if ok and outs:
         ctx.ok("C10.porcelain", "compile/_porcelain.py:cachable_tensor_method")
     else:
-        ctx.fail("C10.porcelain", "compile/_porcelain.py:cachable_tensor_method", "does not construct a TensorMethod for (problem, backend)")
+        ctx.fail("C10.porcelain", "compile/_porcelain.py:cachable_tensor_method", f"does not construct TensorMethod(problem, backend): {outs}")
 
 
 def rule_call_validation(ctx, ix):
